@@ -70,17 +70,24 @@ Section ListLevel.
   Qed.
 
   (* ---------- the loops ---------- *)
-  Lemma shorter_loop_false rec items : good items -> forall n s,
-    shorter_loop is_empty rec s items n = Ok false ->
+  Lemma shorter_loop_false rec items : good items -> forall n s re,
+    shorter_loop is_empty rec s items n = Ok (false, re) ->
     forall k, k < n -> (1 <= k -> exists v, vm v items = true) -> rec (s ++ repeat items k) sem_never = Ok false.
   Proof.
-    intros Gi. induction n as [|n IH]; intros s H k Hk Hv; [lia|]. cbn [shorter_loop] in H.
+    intros Gi. induction n as [|n IH]; intros s re H k Hk Hv; [lia|]. cbn [shorter_loop] in H.
     destruct (rec s sem_never) as [[|]|e] eqn:Er; cbn [bind] in H; try discriminate.
     destruct k as [|k]; [cbn [repeat]; rewrite app_nil_r; exact Er|].
     destruct (is_empty items) as [[|]|e] eqn:Ee; cbn [bind] in H; try discriminate.
     - destruct (Hv ltac:(lia)) as [v Hvm]. rewrite (empty_sound items Gi Ee v) in Hvm. discriminate.
     - cbn [repeat]. replace (s ++ items :: repeat items k) with ((s ++ [items]) ++ repeat items k) by (rewrite <- app_assoc; reflexivity).
-      apply IH; [exact H|lia|]. intros _. apply Hv. lia.
+      apply (IH _ re); [exact H|lia|]. intros _. apply Hv. lia.
+  Qed.
+
+  Lemma shorter_loop_rest_empty rec items : forall n s, shorter_loop is_empty rec s items n = Ok (false, true) -> is_empty items = Ok true.
+  Proof.
+    induction n as [|n IH]; intros s H; cbn [shorter_loop] in H; [discriminate|].
+    destruct (rec s sem_never) as [[|]|e]; cbn [bind] in H; try discriminate.
+    destruct (is_empty items) as [[|]|e] eqn:Ee; cbn [bind] in H; try discriminate; [reflexivity|apply (IH _ H)].
   Qed.
 
   Lemma tail_loop_false rec items diff : forall n s,
@@ -265,20 +272,28 @@ Section ListLevel.
       { intros k. apply Forall_app. split; [exact Gp|]. apply Forall_forall. intros z Hz. apply repeat_spec in Hz. subst. exact Gi. }
       destruct (Nat.ltb len nl) eqn:E1.
       - apply Nat.ltb_lt in E1. destruct (is_never items) eqn:En; [apply (IHrec prefix items Gp Gi H xs Hs)|].
-        match type of H with (do f <- ?X; _) = _ => destruct X as [[|]|e] eqn:Es end; cbn [bind] in H; try discriminate.
-        destruct (Nat.lt_ge_cases (List.length xs) nl) as [Hshort|Hlong].
-        + destruct Hs as [Hl Hsh]. fold len in Hl.
-          pose proof (shorter_loop_false rec items Gi _ _ Es (List.length xs - len) ltac:(lia)) as Er.
+        match type of H with (do f <- ?X; _) = _ => destruct X as [[[|] re]|e] eqn:Es end; cbn [bind fst snd] in H; try discriminate.
+        assert (Short : List.length xs < nl -> exists n, In n rest /\ Shape xs (la_prefix n) (la_items n)).
+        { intros Hshort. destruct Hs as [Hl Hsh]. fold len in Hl.
+          pose proof (shorter_loop_false rec items Gi _ _ _ Es (List.length xs - len) ltac:(lia)) as Er.
           assert (Hv : 1 <= List.length xs - len -> exists v, vm v items = true).
           { intros Hk. destruct (nth_error xs len) as [v|] eqn:Ev; [|apply nth_error_None in Ev; lia].
             exists v. rewrite <- (nth_overflow prefix items (n := len)) by (unfold len; lia). apply (Hsh len v Ev). }
           specialize (Er Hv).
           apply (IHrec _ sem_never (Gpad _) good_never Er xs).
           apply shape_closed with (items := items); [|rewrite app_length, repeat_length; fold len; lia].
-          apply shape_pad. split; [split; assumption|fold len; lia].
-        + apply (main_sound nt (prefix ++ repeat items (nl - len)) items Gn (Gpad _) Gi); auto.
-          * rewrite app_length, repeat_length. fold len nl. lia.
-          * apply shape_pad. split; [exact Hs|fold len; lia].
+          apply shape_pad. split; [split; assumption|fold len; lia]. }
+        destruct re.
+        { (* the rest type is empty: xs has exactly the prefix *)
+          apply Short. pose proof (shorter_loop_rest_empty rec items _ _ Es) as Ee. destruct Hs as [Hl Hsh]. fold len in Hl.
+          destruct (Nat.eq_dec (List.length xs) len) as [E|E]; [lia|].
+          destruct (nth_error xs len) as [v|] eqn:Ev; [|apply nth_error_None in Ev; lia].
+          pose proof (Hsh len v Ev) as Hvm. rewrite nth_overflow in Hvm by (unfold len; lia).
+          rewrite (empty_sound items Gi Ee v) in Hvm. discriminate. }
+        destruct (Nat.lt_ge_cases (List.length xs) nl) as [Hshort|Hlong]; [apply Short; exact Hshort|].
+        apply (main_sound nt (prefix ++ repeat items (nl - len)) items Gn (Gpad _) Gi); auto.
+        + rewrite app_length, repeat_length. fold len nl. lia.
+        + apply shape_pad. split; [exact Hs|fold len; lia].
       - apply Nat.ltb_ge in E1.
         destruct (Nat.ltb nl len && is_never (la_items nt)) eqn:E2; [apply (IHrec prefix items Gp Gi H xs Hs)|].
         apply (main_sound nt prefix items Gn Gp Gi); auto.
